@@ -220,3 +220,23 @@ ADDENDA4 = {
 for _k, _v in ADDENDA4.items():
     if _k in CHECKS and _v not in CHECKS[_k]["text"]:
         CHECKS[_k]["text"] += _v
+
+ADDENDA5 = {
+ "C01": " Certificate presented during the refresh that lists it; sibling locations (same path, other query / case / segment).",
+ "C02": " Chains that lack the issuer: strict denies, lenient does not.",
+ "C04": " End-entity signer rows with every key usage (Authz.tla).",
+ "C05": " Class lookalikeEmbedded (self-signed copy of the issuer's name and serial).",
+ "C07": " Aftermath sequences under verify: good / unverifiable / hostile, then the handshake.",
+ "C08": " LVerify may fail with a verifying signature (signer-record write fault); real faults at the hooks of LevelDbStore.Update.",
+ "C09": " Store missing after a swap that failed between its renames, followed by further passes.",
+ "C10": " A handshake queued behind a failing first load.",
+ "C11": " A list rejected after its entries were read, then an acceptable one, within one load.",
+ "C13": " Second handshake during a failing first load whose own download succeeds (verdict sequential).",
+ "C14": " Origins send HTTP caching headers.",
+ "C17": " A store that stops taking writes in the middle of a big list.",
+ "C19": " Valid configurations loaded again after Cleanup with work_dir spellings.",
+ "C20": " A swap that fails when the moved-in database is opened again.",
+}
+for _k, _v in ADDENDA5.items():
+    if _k in CHECKS and _v not in CHECKS[_k]["text"]:
+        CHECKS[_k]["text"] += _v
